@@ -262,6 +262,8 @@ func init() {
 					Params: map[string]string{"abs": a, "event": ev, "norange": "1", "maxn": "2", "tag": fmt.Sprintf("c13_%d", len(jobs))}})
 			}
 		}
+		jobs = append(jobs, Job{Pkg: nodePkg, Fn: "VF_C13_Api", Opts: opts, Tag: "api ProcessOperation", Case: "api=ProcessOperation",
+			Params: map[string]string{"tag": fmt.Sprintf("c13_%d", len(jobs))}})
 		res := cr.Pool.Run(jobs)
 		cr.absorb(jobs, res)
 		points := map[string]int{}
@@ -279,9 +281,9 @@ func init() {
 		}
 		cr.extra["crash_points_by_k_over_effects"] = points
 		cr.groupKey = func(v Violation) string { return v.Label }
-		cr.explanation = "Real Poll/ProcessMessage/processMessage and the real repositories and services executed from SSA; one genuinely signed board message with a symbolic payload per (round state, event); the process is killed after the k-th durable effect (state write, offset write, board send) for every k, restarted on the same state store (all services constructed afresh) and polled again; the public state (round projection, pending operations, signatures, offset) must equal that of the crash-free run. k=0 is a clean stop/start."
+		cr.explanation = "Real Poll/ProcessMessage/processMessage and the real repositories and services executed from SSA; one genuinely signed board message with a symbolic payload per (round state, event); the process is killed after the k-th durable effect (state write, offset write, board send) for every k, restarted on a byte-for-byte copy of the state directory as it was at that instant (all services constructed afresh, LevelDB reopened) and polled again; the public state (round projection, pending operations, signatures, offset) must equal that of the crash-free run. k=0 is a clean stop/start. API side (VF_C13_Api): the process dies after the k-th durable effect of ProcessOperation answering a pending operation with 1..2 result messages, or at any time after the request returned (before any further board message is handled); after the restart an unanswered operation is still offered, a retired one has its answer on the board, and a request that returned stays effective."
 		cr.bounds["crashes"] = "one crash per run, every position between the durable effects of handling one message; one message per run"
-		cr.bounds["outside"] = "torn writes inside LevelDB, two crashes, crashes while handling API requests, n > 2"
+		cr.bounds["outside"] = "torn writes inside LevelDB, two crashes, API requests other than ProcessOperation with result messages (ApproveParticipation, reinit finish, reset), n > 2"
 	}}
 }
 
